@@ -256,6 +256,12 @@ def gen_transformer(rng, width, depth, names):
             trs.append(("c%d" % i, o, sel))
             desc.append("%s%s" % (di, cols))
             w += wi
+        if rng.rand() < 0.12 and trs:
+            # an entry whose column selection is EMPTY (no categorical column in this table): scikit-learn skips it at
+            # fit time, it is still an estimator nested in the pipeline that was given
+            o, _, di = gen_transformer(rng, 1, depth - 1, None)
+            trs.append(("cempty", o, [] if rng.rand() < 0.7 else ()))
+            desc.append("%s[]" % di)
         rem = "drop"
         if rng.rand() < 0.3 and len(used) < width:
             rem = "passthrough"
@@ -490,16 +496,27 @@ def run_case(case, ctx):
                               cfg=cfg)
                 break
     # ---- pipeline2dot
+    empty_sel = "[]" in desc.replace("[names]", "").replace("[ints]", "")
     for dname, d in (("data", list(data.columns) if schema == "names" else data),):
         try:
             dot = pipeline2dot(pipe, d)
         except Exception as e:
             ctx.hit("dot.parsed")
             kind = "int-columns" if "CT[ints]" in desc else ("named-columns" if "CT[names]" in desc else "no-CT")
+            if empty_sel:
+                # (known finding: the drawing code takes max() of the selected positions)
+                ctx.violation("C16/dot/raised/empty-column-selection", "pipeline2dot raises %s on a ColumnTransformer entry "
+                              "whose column selection is empty: %s" % (type(e).__name__, str(e)[:100]), cfg=cfg)
+                continue
             ctx.violation(K + "dot/raised/%s/%s" % (type(e).__name__, kind), "%s: %s" % (
                 type(e).__name__, str(e)[:150]), cfg=cfg)
             continue
         ctx.hit("dot.parsed")
+        if empty_sel:
+            # a transformer that is given no column has no place in a data-flow graph from the inputs to the outputs: what
+            # the drawing should show for it is not stated, the graph clauses are not judged for such programs
+            ctx.excluded("pipeline2dot on a program with an empty column selection")
+            continue
         D = Dot(dot)
         errs = D.check()
         kind = "int-columns" if "CT[ints]" in desc else ("named-columns" if "CT[names]" in desc else "no-CT")
